@@ -152,6 +152,7 @@ def run_fuzz(d, items, per_case_s=5.0):
             with open(os.devnull, "w") as devnull:
                 p = subprocess.run([C.TSGV, "fuzz", C.CORPUS_PY, cin, cout], stdout=subprocess.PIPE, stderr=devnull, text=True, timeout=timeout)
             stdout = p.stdout or ""
+            C.killed_from_outside(p.returncode)
             if p.returncode != 0:
                 how = "abort(status %d)" % p.returncode
         except subprocess.TimeoutExpired as ex:
